@@ -11,6 +11,11 @@ pub struct Profile {
     pub kinds: Vec<(u32, Kind)>,
     pub max_ops: usize,
     pub min_ops: usize,
+    /// percentage of cases with a long history (up to `long_max` ops): some states (an ARC
+    /// target p of 3 or more with lopsided ghost lists, a hash index that rehashes in place)
+    /// are only reached after dozens of operations
+    pub long_pct: u32,
+    pub long_max: usize,
     /// percentage of cases using `String` keys
     pub str_pct: u32,
     pub w_put: u32,
@@ -46,6 +51,8 @@ impl Profile {
             kinds: vec![(3, Kind::Lru), (1, Kind::LruCb), (1, Kind::LruCbD), (3, Kind::Seg), (4, Kind::TwoQ), (4, Kind::Arc), (4, Kind::Wtl)],
             max_ops: if thorough { 150 } else { 40 },
             min_ops: 0,
+            long_pct: 8,
+            long_max: if thorough { 400 } else { 160 },
             str_pct: 0,
             w_put: 30,
             w_get: 14,
@@ -245,7 +252,8 @@ pub fn case_strategy(p: &Profile) -> BoxedStrategy<Case> {
             let p4 = p3.clone();
             (Just(kind), Just(cfg), Just(strpick), lo..=hi.max(lo), 0u32..100).prop_flat_map(move |(kind, cfg, strpick, a, prefill)| {
                 let cap = cfg.total_cap(kind);
-                let ops = prop::collection::vec(op_strategy(kind, a, cap, &p4), p4.min_ops.min(p4.max_ops)..=p4.max_ops);
+                let (lo_n, hi_n) = if prefill >= 100 - p4.long_pct.min(100) && p4.long_pct > 0 { (p4.max_ops.min(p4.long_max), p4.long_max.max(p4.max_ops)) } else { (p4.min_ops.min(p4.max_ops), p4.max_ops) };
+                let ops = prop::collection::vec(op_strategy(kind, a, cap, &p4), lo_n..=hi_n);
                 let keys = if strpick < p4.str_pct { KeyMode::Str } else { KeyMode::Tracked };
                 // a large cache is useless to a 40-op history unless it starts (nearly) full:
                 // 2/3 of the large-capacity cases begin with one put per distinct key
